@@ -153,7 +153,7 @@ def _as_dictattr(o):
     return o
 
 
-COMP = ['absent', 'scalar', 'same', 'sameflip', 'samereordered', 'samedictattr', 'flat5', 'otherdict', 'partialdict', 'range7', 'keysview']
+COMP = ['absent', 'scalar', 'same', 'sameflip', 'samereordered', 'samedictattr', 'flat5', 'otherdict', 'partialdict', 'range7', 'keysview', 'otherDict']
 
 
 def companion(kind, s, tag):
@@ -171,6 +171,9 @@ def companion(kind, s, tag):
         return [tag + str(i) for i in range(5)]
     if kind == 'otherdict':
         return {'q': tag, 'r': [tag]}
+    if kind == 'otherDict':          # a mapping of a dict SUBCLASS with keys of its own: broadcast whole, as the object of the class it is
+        from pyg_base import Dict
+        return Dict(q=tag, r=Dict(w=tag))
     if kind == 'range7':             # neither a list, a tuple nor a dict, and of no container's length: broadcast whole
         return range(7)
     if kind == 'keysview':           # a dict view (three keys) is not a container to be matched either
@@ -220,7 +223,10 @@ def check_loop(case):
 
                 def leaf_ok(path, v):
                     want = (xleaf(path), comp_at(ky, s, 'y', path, 0), comp_at(kz, s, 'z', path, 0))
-                    return None if v == want and type(v) is tuple else 'leaf at %s is %r, expected f applied to the leaf with its companions: %r' % (list(path), v, want)
+                    ok_ = v == want and type(v) is tuple and all(type(a_) is type(b_) for a_, b_ in zip(v, want)) and \
+                        all(type(a_.get('r')) is type(b_.get('r')) for a_, b_ in zip(v, want) if isinstance(b_, dict) and isinstance(a_, dict))
+                    return None if ok_ else 'leaf at %s is %r (types %s), expected f applied to the leaf with its companions: %r (types %s)' % (
+                        list(path), v, [type(a_).__name__ for a_ in v] if isinstance(v, tuple) else type(v).__name__, want, [type(b_).__name__ for b_ in want])
                 p = same_shape(s, res, leaf_ok)
                 if p:
                     out.viol('loop-wrong', 'f(%s, y=%s passed %s, z=%s passed %s): %s' % (label, ky, py, kz, pz, p), **sig)
@@ -389,6 +395,25 @@ def check_aslist(case):
                 out.viol('normaliser-raised', '%s(%s) twice raised %s: %s' % (fname, n, type(e).__name__, e), f=fname)
         out.cls('%s:%s' % (fname, 'wrapped' if (isinstance(aval(n), (list, tuple, range))) else 'scalar'))
         out.nontrivial(fname)
+    # ---- the `none` flag (None is a value to be wrapped, not 'nothing'): both normalisers agree under it, stay idempotent, and it changes nothing for other values
+    for vname, mk in ((n, lambda: aval(n)), ('None', lambda: None)):
+        for how, call in (('positional', lambda f_, v_: f_(v_, True)), ('keyword', lambda f_, v_: f_(v_, none=True))):
+            out.sub()
+            try:
+                l1, t1 = call(as_list, mk()), call(as_tuple, mk())
+                l2, t2 = call(as_list, l1), call(as_tuple, t1)
+                out.call(4)
+                plain_l, plain_t = as_list(mk()), as_tuple(mk())
+            except Exception as e:
+                out.viol('normaliser-raised', 'as_list / as_tuple(%s, none=True passed %s) raised %s: %s' % (vname, how, type(e).__name__, e), f='none-flag')
+                continue
+            want_l = [None] if mk() is None else plain_l
+            if type(l1) is not list or type(t1) is not tuple or l1 != want_l or t1 != tuple(want_l):
+                out.viol('normaliser-none-flag', 'as_list(%s, none=True) = %r and as_tuple(%s, none=True) = %r (flag passed %s): expected %r and %r' % (
+                    vname, l1, vname, t1, how, want_l, tuple(want_l)), f='none-flag', none_value=mk() is None)
+            elif l2 != l1 or t2 != t1:
+                if not (isinstance(mk(), list) and len(mk()) == 1 and isinstance(mk()[0], list)) and not (t2 != t1 and len(t1) == 1 and isinstance(t1[0], (list, tuple))):
+                    out.viol('not-idempotent', 'with none=True: as_list(%s) = %r then %r; as_tuple = %r then %r' % (vname, l1, l2, t1, t2), f='none-flag', shape='other')
     return out
 
 
